@@ -39,7 +39,7 @@ def bounds(tier):
 
 
 def goals(tier):
-    return ["records-sharing-an-identifier", "two-digit-citation-index", "shared-reference-merged", "several-citations-on-one-feature", "renumbered", "dropped-feature-cites", "no-citations", "repeated-call", "cited-feature-with-unusual-qualifiers", "cited-records-fully-annotated"]
+    return ["records-sharing-an-identifier", "two-digit-citation-index", "shared-reference-merged", "several-citations-on-one-feature", "renumbered", "dropped-feature-cites", "no-citations", "repeated-call", "cited-feature-with-unusual-qualifiers", "cited-records-fully-annotated", "records-annotated-after-a-first-use"]
 
 
 def configs(refs_menu):
@@ -120,7 +120,8 @@ def build(k, vc, mc, rotated=False, strip=False, ids="distinct", shape=None):
 
 def ref_id(r):
     """content identity of a Reference object (title carries the pool number)"""
-    return getattr(r, "title", repr(r))
+    from Bio.SeqFeature import Reference
+    return r.title if isinstance(r, Reference) else "not-a-reference:" + repr(r)[:40]
 
 
 def check(st, scn):
@@ -128,8 +129,23 @@ def check(st, scn):
     gen.prime(list(gen.generic_classes(ENZ)))
     records, ents = build(k, vc, mc, rotated, ids=scn.get("ids", "distinct"), shape=scn.get("shape"))
     plain_records, plain_ents = build(k, vc, mc, rotated, strip=True, ids=scn.get("ids", "distinct"), shape=scn.get("shape"))
-    before = {n: snapshot.record_snapshot(r) for n, r in records.items()}
     order = ["m1"] + (["m2"] if k == 2 else [])
+    if scn.get("late"):
+        # the entities first take part in an assembly while their records cite nothing; the records are then annotated in
+        # place (citations and reference lists copied over from the cited twins) and the SAME entities are used from here on
+        late_records, late_ents = build(k, vc, mc, rotated, strip=True, ids=scn.get("ids", "distinct"), shape=scn.get("shape"))
+        first = asm.run_assemble(late_ents["v"], [late_ents[n] for n in order])
+        if first.kind != "product":
+            raise HarnessError("citation-free assembly fails: {}".format(first.brief()))
+        for n_, r_ in late_records.items():
+            twin = records[n_]
+            if "references" in twin.annotations:
+                r_.annotations["references"] = twin.annotations["references"]
+            for f_, g_ in zip(r_.features, twin.features):
+                if "citation" in g_.qualifiers:
+                    f_.qualifiers["citation"] = list(g_.qualifiers["citation"])
+        records, ents = late_records, late_ents
+    before = {n: snapshot.record_snapshot(r) for n, r in records.items()}
     po = asm.run_assemble(plain_ents["v"], [plain_ents[n] for n in order])
     if po.kind != "product":
         raise HarnessError("citation-free assembly fails: {}".format(po.brief()))
@@ -258,6 +274,12 @@ def run_unit(unit, st, tier):
                     st.scenario("cited", None, calls=b["repeated_calls"] + 1)
                     st.nontrivial += 1
                     st.goal("records-sharing-an-identifier")
+            # entities that were already used while their records cited nothing
+            if k == 2 and (vc["kept"] or mc["kept"]) and not mc["dropped"] and not vc["dropped"] and len(vc["refs"]) <= 3 and len(mc["refs"]) <= 3 and not rotated:
+                check(st, dict(scn, late=True))
+                st.scenario("cited", None, calls=b["repeated_calls"] + 2)
+                st.nontrivial += 1
+                st.goal("records-annotated-after-a-first-use")
             # unusual but legal record contents next to the citations: same expectations, at both rotations
             if k == 2 and vc["kept"] and mc["kept"] and not mc["dropped"] and not vc["dropped"] and len(vc["refs"]) <= 3 and len(mc["refs"]) <= 3 and not rotated:
                 for shape in ("string-qualifiers", "annotated"):
